@@ -3142,6 +3142,12 @@ def t_portlink( ctx ):
         ( '1/1/2',            'raise' ),
         ( '1/no.such.host.',  'raise' ),
         ( ( 1, 2, 3 ),        'raise' ),
+        # ( numbers no port segment can carry spell none: a link number is one octet, a port one UINT )
+        ( '65535/255',        { 'port': 65535, 'link': 255 } ),
+        ( '1/256',            'raise' ),
+        ( '1/-1',             'raise' ),
+        ( '65536/1',          'raise' ),
+        ( { 'port': 1, 'link': 1000 }, 'raise' ),
     )
     def ip_( a ):
         return ipaddress.ip_address( a if not isinstance( a, bytes ) else a.decode())
@@ -3165,7 +3171,7 @@ def t_portlink( ctx ):
         res.bad( src, fn, 'port_link( %r ) gives %s, not %s ( %d of %d spellings differ )' % ( spelled, got, want, len( wrong ), len( TABLE )),
                  'a route path spelled that way is refused, or denotes another segment than it spells: the simulator configured with it accepts other requests than the configured route' )
     else:
-        res.ok( src, fn, 'port_link gives the segment every spelling of the table denotes ( %d spellings, 6 refused )' % len( TABLE ))
+        res.ok( src, fn, 'port_link gives the segment every spelling of the table denotes ( %d spellings, 10 refused )' % len( TABLE ))
     return res
 
 
